@@ -625,10 +625,10 @@ def judge_rotation(part, case, directory, before, today, ndays, step, text, exc)
     lost_foreign = sorted(n for n in removed if not DATED.match(n))
     if lost_foreign and ndays:
         bad = True
-        kinds = sorted({FOREIGN.get(n, 'file') for n in lost_foreign})
-        where = sorted({'sorting-before-the-log-files' if n < ROOT else 'sorting-after-the-log-files' for n in lost_foreign})
-        part.violation(f'C20:rollover:foreign-{"-and-".join(kinds)}-removed:{"-and-".join(where)}', stepcase,
-                       f'{what}; entries that are no log files of this handler were removed: {lost_foreign}')
+        for n in lost_foreign:
+            where = 'sorting-before-the-log-files' if n < ROOT else 'sorting-after-the-log-files'
+            part.violation(f'C20:rollover:foreign-{FOREIGN.get(n, "file")}-removed:{where}', stepcase,
+                           f'{what}; entries that are no log files of this handler were removed: {lost_foreign}')
     if bad:
         return 'VIOLATION'
     left = removable & after
